@@ -499,3 +499,300 @@ def run_has_storage(tier, log, seed):
     else:
         res.update(status="pass")
     return res
+
+
+# ------------------------------------------------------------------------------------------------ C05
+def spec_ids():
+    """SpecId name -> discriminant of the mainnet (non-optimism) enum, read from the source."""
+    src = open("/repo/crates/primitives/src/specification.rs").read()
+    m = re.search(r"#\[cfg\(not\(feature = \"optimism\"\)\)\].*?pub enum SpecId \{(.*?)\n\}", src, re.S)
+    out = {}
+    for name, val in re.findall(r"^\s*([A-Z_]+) = (\d+|u8::MAX),", m.group(1), re.M):
+        out[name] = 255 if val == "u8::MAX" else int(val)
+    return out
+
+
+def spec_type_ids(ids):
+    """SpecId discriminant -> SPEC_ID of the Spec type that `spec_to_generic!` (mainnet arm) instantiates for it."""
+    src = open("/repo/crates/primitives/src/specification.rs").read()
+    types = dict((t, n) for n, t in re.findall(r"^spec!\(([A-Z_]+), (\w+)\);", src, re.M))
+    m = re.search(r"#\[cfg\(not\(feature = \"optimism\"\)\)\]\s*#\[macro_export\]\s*macro_rules! spec_to_generic \{(.*?)\n\}\n", src, re.S)
+    if not m:
+        raise mir.Unsupported("spec_to_generic! (mainnet) not found")
+    out = {}
+    for pats, ty in re.findall(r"((?:\$crate::)?SpecId::[A-Z_]+(?:\s*\|\s*(?:\$crate::)?SpecId::[A-Z_]+)*)\s*=>\s*\{\s*use \$crate::(\w+) as SPEC;", m.group(1)):
+        for nm in re.findall(r"SpecId::([A-Z_]+)", pats):
+            out[ids[nm]] = ids[types[ty]]
+    missing = [k for k, v in ids.items() if v not in out]
+    if missing:
+        raise mir.Unsupported("spec_to_generic! does not cover " + ",".join(missing))
+    return out
+
+
+# Reference (EIPs / yellow paper): opcode -> hardfork that introduced it, for LEGACY code. Anything absent is undefined.
+def reference_opcode_intro():
+    F = "FRONTIER"
+    t = {}
+    for op in list(range(0x00, 0x0c)) + list(range(0x10, 0x1b)) + [0x20] + list(range(0x30, 0x3d)) + list(range(0x40, 0x46)) \
+            + list(range(0x50, 0x5c)) + list(range(0x60, 0xa5)) + [0xf0, 0xf1, 0xf2, 0xf3, 0xff]:
+        t[op] = F
+    t[0xf4] = "HOMESTEAD"                                                  # EIP-7 DELEGATECALL
+    for op in (0x3d, 0x3e, 0xfa, 0xfd):                                    # EIP-211, EIP-214, EIP-140
+        t[op] = "BYZANTIUM"
+    for op in (0x1b, 0x1c, 0x1d, 0x3f, 0xf5):                              # EIP-145, EIP-1052, EIP-1014
+        t[op] = "CONSTANTINOPLE"
+    for op in (0x46, 0x47):                                                # EIP-1344, EIP-1884
+        t[op] = "ISTANBUL"
+    t[0x48] = "LONDON"                                                     # EIP-3198
+    t[0x5f] = "SHANGHAI"                                                   # EIP-3855
+    for op in (0x49, 0x4a, 0x5c, 0x5d, 0x5e):                              # EIP-4844, EIP-7516, EIP-1153, EIP-5656
+        t[op] = "CANCUN"
+    return t
+
+
+EOF_ONLY = {0xd0, 0xd1, 0xd2, 0xd3, 0xe0, 0xe1, 0xe2, 0xe3, 0xe4, 0xe5, 0xe6, 0xe7, 0xe8, 0xec, 0xee, 0xf7, 0xf8, 0xf9, 0xfb}
+DESIGNATED_INVALID = 0xfe   # halts in every fork whether "defined" or not: not compared
+
+
+def extract_opcode_table(funcs, text):
+    """opcode -> (function path, generic args) from the MIR of `instruction::<H, SPEC>(opcode)`."""
+    cands = [f for n, fl in funcs.items() for f in fl if n == "instruction"]
+    if not cands:
+        raise mir.Unsupported("fn instruction(opcode) not found in MIR")
+    fn = cands[0]
+    m = re.match(r"^switchInt\(copy _1\) -> \[(.*)\]$", fn.blocks["bb0"].term)
+    if not m:
+        raise mir.Unsupported("instruction(): entry is not a switch on the opcode")
+    table, default = {}, None
+    arms = [a.split(": ") for a in mir.split_top(m.group(1))]
+
+    def target_fn(bb):
+        for s in fn.blocks[bb].stmts:
+            mm = re.match(r"^_0 = ([\w:]+?)(?:::<(.*)>)? as for<", s)
+            if mm:
+                return mm.group(1), (mm.group(2) or "")
+        raise mir.Unsupported("instruction(): block %s does not assign a function" % bb)
+    for k, bb in arms:
+        if k == "otherwise":
+            default = target_fn(bb)
+        else:
+            table[int(k)] = target_fn(bb)
+    for op in range(256):
+        table.setdefault(op, default)
+    return table
+
+
+def fork_gate(funcs, text, path, generics):
+    """(gate fork or None, requires_eof: bool) of an instruction function, from its MIR."""
+    name = path
+    fl = funcs.get(name)
+    if not fl:
+        # rustc prints trimmed paths: a function whose name is unique in the crate is printed without its module path
+        segs = name.split("::")
+        best = []
+        for k in range(len(segs)):
+            suffix = "::".join(segs[k:])
+            best = [f for n, l in funcs.items() for f in l if n == suffix]
+            if best:
+                break
+        fl = best
+    if len(fl) != 1:
+        raise mir.Unsupported("MIR of %s not found uniquely (%d candidates)" % (name, len(fl)))
+    fn = fl[0]
+    # in legacy code an EOF-only opcode halts either way (EOFOpcodeDisabledInLegacy, or ReturnContractInNotInitEOF for RETURNCONTRACT)
+    requires_eof = "EOFOpcodeDisabledInLegacy" in fn.text or "ReturnContractInNotInitEOF" in fn.text
+    gate = None
+    bool_args = [g.strip() for g in mir.split_top(generics) if g.strip() in ("true", "false")]
+    preds = {}
+    for b_ in fn.blocks.values():
+        for lab, s_ in mir.successors(b_.term or ""):
+            preds.setdefault(s_, []).append((b_.name, lab))
+    for b_ in fn.blocks.values():
+        m = re.match(r"^switchInt\(const (.+?)\) -> \[0: (bb\d+), otherwise: (bb\d+)\]$", b_.term or "")
+        if not m or "{constant#" not in m.group(1):
+            continue
+        c, b0, b1 = m.groups()
+        # is this gate itself under a const-generic condition (e.g. `if IS_CREATE2 { check!(..) }`)?
+        applicable = True
+        ps = [p for p in preds.get(b_.name, []) if not p[1].startswith("unwind")]
+        if len(ps) == 1:
+            pm = re.match(r"^switchInt\(const ([A-Z_0-9]+)\) -> \[0: (bb\d+), otherwise: (bb\d+)\]$", fn.blocks[ps[0][0]].term or "")
+            if pm:
+                if len(bool_args) != 1:
+                    raise mir.Unsupported("%s: gate under const generic %s but instantiation %s is ambiguous" % (name, pm.group(1), generics))
+                taken_true = (pm.group(3) == b_.name)
+                applicable = (bool_args[0] == "true") == taken_true
+        if not applicable:
+            continue
+        cname = re.sub(r"::<.*?>", "", c)
+        knum = re.search(r"\{constant#(\d+)\}", cname).group(1)
+        # the definition is printed under the function's own (possibly trimmed) path
+        mm = re.search(r"^" + re.escape(fn.name) + r"::\{constant#" + knum + r"\}: bool = \{(.*?)\n\}", text, re.S | re.M)
+        if not mm:
+            raise mir.Unsupported("inline const %s not found" % cname)
+        body = mm.group(1)
+        fk = re.search(r"_\d+ = (?:[\w]+::)*([A-Z_]+);", body)
+        if not fk or "is_enabled_in(const <SPEC as" not in body or "Not(" not in body:
+            raise mir.Unsupported("inline const %s is not a `!SPEC.is_enabled_in(FORK)` gate" % cname)
+        if "NotActivated" not in "\n".join(fn.blocks[b1].stmts):
+            raise mir.Unsupported("%s: gate branch does not set NotActivated" % name)
+        if gate is not None and gate != fk.group(1):
+            raise mir.Unsupported("%s: two different fork gates" % name)
+        gate = fk.group(1)
+    return gate, requires_eof
+
+
+def run_fork_tables(tier, log, seed):
+    duo = smt.Duo(timeout_s=60)
+    failures, inconcl, samples = [], [], []
+    ids = spec_ids()
+    valid = sorted(set(ids.values()))
+    # ---------------- opcodes
+    try:
+        text = mir.dump("interpreter", log)
+        funcs = mir.parse_functions(text)
+        table = extract_opcode_table(funcs, text)
+        gates = {}
+        cache = {}
+        for op, (path, gen) in table.items():
+            key = (path, gen)
+            if key not in cache:
+                if path.endswith("control::unknown"):
+                    cache[key] = ("NEVER", False)
+                else:
+                    cache[key] = fork_gate(funcs, text, path, gen)
+            gates[op] = cache[key]
+    except mir.Unsupported as e:
+        inconcl.append("opcode table: " + str(e))
+        gates = None
+    if gates is not None:
+        ref = reference_opcode_intro()
+        # SMT: undefined_code(op, spec) vs undefined_ref(op, spec) over all 256 x |SpecId|
+        def ite_chain(vals, default):
+            t = default
+            for op, v in sorted(vals.items(), reverse=True):
+                t = f"(ite (= op {op}) {v} {t})"
+            return t
+        NEVER = 1000
+        code_gate = {op: (NEVER if g == "NEVER" else (ids[g] if g else 0)) for op, (g, e) in gates.items()}
+        code_eof = {op: ("true" if e else "false") for op, (g, e) in gates.items()}
+        ref_gate = {op: ids[ref[op]] if op in ref else NEVER for op in range(256)}
+        ref_eof = {op: ("true" if op in EOF_ONLY else "false") for op in range(256)}
+        decls = ["(declare-const op Int)", "(declare-const spec Int)"]
+        base = ["(<= 0 op)", "(<= op 255)", f"(not (= op {DESIGNATED_INVALID}))",
+                "(or " + " ".join(f"(= spec {v})" for v in valid) + ")"]
+        try:
+            eff = spec_type_ids(ids)
+        except mir.Unsupported as e:
+            inconcl.append(str(e))
+            eff = {v: v for v in valid}
+        efft = "spec"
+        for sp_, ty_ in sorted(eff.items(), reverse=True):
+            efft = f"(ite (= spec {sp_}) {ty_} {efft})"
+        # the table is instantiated for the Spec TYPE that spec_to_generic! picks for the SpecId (e.g. CONSTANTINOPLE -> PetersburgSpec)
+        und_code = f"(or {ite_chain(code_eof, 'false')} (< {efft} {ite_chain(code_gate, '0')}))"
+        und_ref = f"(or {ite_chain(ref_eof, 'false')} (< spec {ite_chain(ref_gate, '0')}))"
+        names = {v: k for k, v in ids.items()}
+        block = []
+        confirmed = 0
+        for _ in range(60):
+            v, model, detail = duo.check(decls, base + block + [f"(not (= {und_code} {und_ref}))"], want_model_of=("op", "spec"))
+            if v == "unsat":
+                break
+            if v != "sat":
+                inconcl.append(f"opcode table query: {detail}")
+                break
+            op = int(re.search(r"\(op (\d+)\)", model).group(1))
+            sp = int(re.search(r"\(spec (\d+)\)", model).group(1))
+            block.append(f"(not (and (= op {op}) (= spec {sp})))")
+            g, e = gates[op]
+            want_undefined = (op not in ref) or (op in EOF_ONLY) or sp < ids[ref[op]]
+            st, out = native.call("debug", "opcode_status", op, sp, log=log)
+            desc = (f"opcode 0x{op:02x} under {names.get(sp, sp)}: the instruction table maps it to {table[op][0].split('::')[-1]} with fork gate {g}"
+                    f"{' (EOF only)' if e else ''}; the EIP table says it is {'undefined' if want_undefined else 'defined'} there")
+            if st == "ok":
+                native_undefined = out.split()[0] in ("OpcodeNotFound", "NotActivated", "EOFOpcodeDisabledInLegacy", "ReturnContractInNotInitEOF")
+                if native_undefined != want_undefined:
+                    failures.append(dict(id=f"opcode-0x{op:02x}-{names.get(sp, sp)}", reproduced=True, description=desc + f" | native: executing it gives {out}"))
+                    confirmed += 1
+                # else: extraction and real behaviour disagree (gate implemented differently): not reported as a violation
+                elif len(block) >= 60:
+                    break
+            else:
+                inconcl.append(f"opcode 0x{op:02x}: native scenario failed: {st} {out}")
+                break
+        n_gated = sum(1 for g, e in gates.values() if g not in (None, "NEVER"))
+        samples.append(f"opcode table: 256 opcodes x {len(valid)} SpecIds; {n_gated} table entries carry a fork gate, "
+                       f"{sum(1 for g, e in gates.values() if e)} are EOF-only, {sum(1 for g, e in gates.values() if g == 'NEVER')} map to `unknown`; "
+                       f"{len(block)} disagreeing (opcode, spec) pairs, {confirmed} confirmed natively")
+        log(f"[e3] {samples[-1]}")
+        unconfirmed = len(block) - confirmed
+        if unconfirmed and not inconcl:
+            inconcl.append(f"{unconfirmed} disagreeing (opcode, spec) pair(s) between the extracted fork gates and the EIP table did not reproduce natively: "
+                           f"the gate of that opcode is not a plain `check!` any more and cannot be decided by this encoding")
+    # ---------------- PrecompileSpecId::from_spec_id
+    try:
+        ptext = mir.dump("precompile", log)
+        pfuncs = mir.parse_functions(ptext)
+        cands = [f for n, fl in pfuncs.items() for f in fl if n.endswith("::from_spec_id")]
+        if len(cands) != 1:
+            raise mir.Unsupported(f"from_spec_id: {len(cands)} MIR bodies")
+        from mirsym import Exec, Val
+        pid = {"HOMESTEAD": 0, "BYZANTIUM": 1, "ISTANBUL": 2, "BERLIN": 3, "CANCUN": 4, "PRAGUE": 5, "LATEST": 6}
+        consts = {("PrecompileSpecId::" + k): (v, "u8") for k, v in pid.items()}
+        consts.update({("SpecId::" + k): (v, "u8") for k, v in ids.items()})
+        consts.update({k: (v, "u8") for k, v in ids.items()})
+        ex = Exec(cands[0], consts=consts, call_models={r"SpecId::is_enabled_in$|SpecId::enabled$": lambda e, a: Val("bool", f"(>= {a[0].term} {a[1].term})")})
+        ocs = ex.run("bb0", {"_1": Val("int", "spec", "u8")})
+        # reference: fork -> precompile set (EIP-198/196/197 Byzantium, EIP-152 Istanbul, EIP-2565 Berlin, EIP-4844 Cancun, EIP-2537 Prague)
+        def ref_pid(sp):
+            r = "HOMESTEAD"
+            for fork, p in (("BYZANTIUM", "BYZANTIUM"), ("ISTANBUL", "ISTANBUL"), ("BERLIN", "BERLIN"), ("CANCUN", "CANCUN"), ("PRAGUE", "PRAGUE")):
+                if sp >= ids[fork]:
+                    r = p
+            if sp == 255:
+                r = "LATEST"
+            return pid[r]
+        refterm = "0"
+        for sp in sorted(valid, reverse=True):
+            refterm = f"(ite (= spec {sp}) {ref_pid(sp)} {refterm})"
+        decls = ["(declare-const spec Int)"]
+        base = ["(or " + " ".join(f"(= spec {v})" for v in valid) + ")"]
+        bad = 0
+        for oc in ocs:
+            if oc.end[0] == "panic":
+                v, model, detail = duo.check(decls, base + oc.pc, want_model_of=("spec",))
+                if v == "sat":
+                    failures.append(dict(id="from_spec_id-panic", description=f"PrecompileSpecId::from_spec_id can panic/reach unreachable: {oc.end[1]} {model}"))
+                continue
+            v, model, detail = duo.check(decls, base + oc.pc + [f"(not (= {oc.end[1].term} {refterm}))"], want_model_of=("spec",))
+            if v == "sat":
+                sp = int(re.search(r"\(spec (\d+)\)", model).group(1))
+                st, out = native.call("debug", "precompile_spec", sp, log=log)
+                names = {v_: k for k, v_ in ids.items()}
+                pn = {v_: k for k, v_ in pid.items()}
+                desc = f"PrecompileSpecId::from_spec_id({names.get(sp, sp)}) differs from the fork's precompile set {pn[ref_pid(sp)]}"
+                if st == "ok" and out != pn[ref_pid(sp)]:
+                    failures.append(dict(id=f"from_spec_id-{names.get(sp, sp)}", reproduced=True, description=desc + f" | native: {out}"))
+                elif st == "ok":
+                    failures.append(dict(id=f"from_spec_id-{names.get(sp, sp)}", reproduced=False, description=desc + f" | native agrees with the reference: {out}"))
+                else:
+                    inconcl.append(f"from_spec_id: native failed {st} {out}")
+                bad += 1
+            elif v != "unsat":
+                inconcl.append(f"from_spec_id: {detail}")
+        samples.append(f"PrecompileSpecId::from_spec_id: {len(ocs)} MIR paths x {len(valid)} SpecIds, {bad} disagreeing")
+        log(f"[e3] {samples[-1]}")
+    except mir.Unsupported as e:
+        inconcl.append("from_spec_id: " + str(e))
+    q, tm = duo.queries, duo.time
+    duo.close()
+    res = dict(queries=q, solver_s=tm, engine="mir table/gate extraction + mir symbolic execution -> smtlib (z3 4.8.12 + cvc5 1.0)", bounds="; ".join(samples),
+               detail="undefined(op, spec) := table maps to `unknown` or the function requires EOF or spec < its check! gate; compared with the EIP introduction table for all 256 x SpecIds")
+    if inconcl:
+        res.update(status="inconclusive", reason="; ".join(inconcl)[:500])
+    elif failures:
+        res.update(status="fail", failures=failures, reason=failures[0]["description"][:300])
+    else:
+        res.update(status="pass")
+    return res
